@@ -197,8 +197,6 @@ def judge (c out : List String) : Verdict :=
       -- spec: the entries are those the listing denotes (every field as written); Read and the JSON round trip agree
       let want := report (.ok (expectedMap sups recs))
       let j := out == "ok" :: want
-      -- the known finding: the reply is exactly the denoted map with `[""]` for every empty <2>
-      let quirk := !j && emptyIsos recs && out == "ok" :: report (.ok (readMap sups recs))
       let indentCls := if ℓ.indent.isEmpty then "noindent" else if ℓ.indent.all (· == ' ') then "spaces"
                        else if ℓ.indent.all (· == '\t') then "tabs" else "mixed"
       let triv := recs.isEmpty
@@ -206,7 +204,7 @@ def judge (c out : List String) : Verdict :=
         cls := (if triv then "triv:" else "") ++ "listing/" ++ sizeClass recs.length ++ "/" ++ indentCls
                ++ (if recs.length > 256 then "/over256" else "")
                ++ (if recs.any (fun r => !r.codes.isEmpty) then "/decoded" else "")
-               ++ (if quirk then "/kf:C16-empty-isoschizomers" else ""),
+               ++ (if recs.any (·.isos.isEmpty) then "/empty2" else ""),
         detail := if out == m && (j || !inDom) then "" else lineOf ((m.take 40)) }
   | ["raw", text] =>
     let m := "ok" :: report (parse text.toList)
@@ -235,11 +233,9 @@ def judge (c out : List String) : Verdict :=
         let isListing := listing sups recs ℓ == text.toList && wfListing sups recs ℓ
         let want := report (.ok (expectedMap sups recs))
         let j := rest == want && someDecoded (expectedMap sups recs) && namesNodup recs
-        let quirk := !j && emptyIsos recs && rest == report (.ok (readMap sups recs)) && namesNodup recs
         -- the sample must BE a listing (re-rendering gives the file back, `wfListing` holds): otherwise FAIL
         { corr := rest == m, judge := some (isListing && j),
-          cls := if isListing then "file/" ++ sizeClass recs.length ++ "/spaces/decoded"
-                   ++ (if quirk then "/kf:C16-empty-isoschizomers" else "") else "file/not-a-listing",
+          cls := if isListing then "file/" ++ sizeClass recs.length ++ "/spaces/decoded" else "file/not-a-listing",
           detail := if rest == m && isListing && j then "" else
                     (if isListing then "" else "the sample file is not `listing sups recs l` for the content the recogniser extracts; ")
                     ++ lineOf (m.take 40) }
